@@ -436,6 +436,12 @@ def evaluate_sequence(w, b, param, parent_kind, seq, no_inline=None, max_paths=4
         return None
     out = []
     for r in res:
+        if r.iter and r.iter[-1].get('ended') and hasattr(r, 'result') and len(r.frames if hasattr(r, 'frames') else []) == 0:
+            top = r.iter[-1]
+            marks = [top['ev_start']] + top.get('marks', []) + [len(r.events)]
+            steps = [r.events[marks[i]:marks[i + 1]] for i in range(len(marks) - 1)]
+            out.append((((top['fn'], top['bb'])), steps, list(r.assumed), ('ended', r.result)))
+            continue
         if with_wholes and not r.iter and hasattr(r, 'result'):
             out.append((None, [list(r.events)], list(r.assumed), []))
             continue
